@@ -293,11 +293,15 @@ def prepare(ctx: Ctx):
     """translator -> build -> audit. Sets ctx.driver_ok."""
     ok_t = run_translator(ctx)
     ok_b = lake_build(ctx, [f'MoPepGen.Props.{ctx.prop}'])
-    ok_d = lake_build(ctx, ['mpgdriver']) if ok_t else False
-    if not ok_d and os.path.exists(DRIVER) and not ok_t:
-        # translation broken: the old driver would silently use old tables
-        ok_d = False
+    # a refused translation leaves the last successfully generated tables in place (the
+    # translator writes nothing on failure): the driver built from them is the reference for
+    # the failing-input search — a concrete input on which the changed source behaves
+    # differently from those tables — while the broken translation itself stays recorded
+    ok_d = lake_build(ctx, ['mpgdriver'])
     ctx.driver_ok = ok_d and os.path.exists(DRIVER)
+    if not ok_t:
+        ctx.notes.append('translation refused: streams ran against the last successfully generated '
+                         'tables (failing-input search)')
     nobl, ndis = (0, 0)
     if ok_b:
         nobl, ndis = audit(ctx)
